@@ -69,6 +69,12 @@ Theorem C04_duration_is_measure : forall l lo n, wf 0 l ->
   (forall s, In s l -> lo <= st s /\ en s <= lo + Z.of_nat n) ->
   tl_duration 0 l = measure lo n l.
 Proof. exact duration_is_measure. Qed.
+(* for every precision: duration() is never less than the number of covered cells (gaps no longer
+   than the precision are bridged; nothing covered is lost) *)
+Theorem C04_duration_at_least_measure : forall eps l lo n, 0 <= eps -> wf eps l ->
+  (forall s, In s l -> lo <= st s /\ en s <= lo + Z.of_nat n) ->
+  measure lo n l <= tl_duration eps l.
+Proof. exact duration_at_least_measure. Qed.
 
 Example C04_nonvacuous :
   wf 1 [(0,4); (1,3); (5,9); (12,14); (14,20)] /\
@@ -95,3 +101,4 @@ Print Assumptions C04_canonical_decomposition_unique.
 Print Assumptions C04_support_is_the_unique_canonical.
 Print Assumptions C04_absorbs_covered.
 Print Assumptions C04_duration_is_measure.
+Print Assumptions C04_duration_at_least_measure.
